@@ -127,7 +127,7 @@ def project_seq(texts, stream):
 def case_of(o, p, l, mfm, ofm, rng=()):
     """Observation -> case record for Trace_Match (uniform field set)."""
     c = {"p": p, "l": l, "mfm": mfm, "ofm": ofm, "outcome": o["outcome"], "stream": "",
-         "all": [], "first": [], "all_addr": [], "first_addr": [], "bools": [], "range": list(rng), "rand": False, "nostream": False}
+         "all": [], "first": [], "all_addr": [], "first_addr": [], "bools": [], "range": list(rng), "rand": False, "nostream": False, "obs": False}
     if o["outcome"] != "ok":
         return c
     res = o["res"]
